@@ -67,6 +67,27 @@ func c04Scenarios(tier string) []*Scenario {
 				out = append(out, sc1("C04", c+"|"+rpcName(rpc), tr, c, rpc))
 			}
 		}
+		// Header() parked or issued around the cancellation
+		for _, c := range []string{"cancel", "deadline"} {
+			out = append(out, sc1("C04", c+"|"+rpcName(RPC{Kind: "ss", Client: []string{"S0", "C", "H", "R*", "H"}, Handler: []string{"r", "w", "ret:ctx"}}), tr, c,
+				RPC{Kind: "ss", Client: []string{"S0", "C", "H", "R*", "H"}, Handler: []string{"r", "w", "ret:ctx"}}))
+			out = append(out, sc1("C04", c+"|"+rpcName(RPC{Kind: "bd", Client: []string{"S0", "C", "R*"}, Client2: []string{"H"}, Handler: []string{"r*", "w", "ret:ctx"}}), tr, c,
+				RPC{Kind: "bd", Client: []string{"S0", "C", "R*"}, Client2: []string{"H"}, Handler: []string{"r*", "w", "ret:ctx"}}))
+		}
+		// a unary call made from inside a handler, with the handler's context: cancellation reaches
+		// it through the asynchronous propagation of the outer call's context
+		if tr == "inproc" {
+			for _, c := range []string{"cancel", "deadline"} {
+				for _, inner := range [][]string{{"dec", "w", "ret:ctx"}, {"dec", "h:a", "t:b", "ret:ok"}} {
+					sc := &Scenario{Prop: "C04", Transport: tr, Cancel: c, Bound: -1, RPCs: []RPC{
+						{Kind: "unary", Client: []string{"I"}, Handler: []string{"dec", "N1", "ret:ok"}},
+						{Kind: "unary", Handler: inner},
+					}}
+					sc.Name = c + "|nested|" + rpcName(sc.RPCs[0]) + " >> " + rpcName(sc.RPCs[1])
+					out = append(out, sc)
+				}
+			}
+		}
 		// handler returns a context error of its own; nobody cancels
 		for _, k := range []string{"unary", "ss", "cs", "bd"} {
 			for _, ret := range []string{"ret:canceled", "ret:deadline"} {
